@@ -36,7 +36,9 @@ def log(*a):
 
 def theorem_names(prop_file):
     src = open(prop_file).read()
-    return re.findall(r"^\s*Theorem\s+([A-Za-z0-9_']+)", src, re.M)
+    # a theorem statement: "Theorem name :" or "Theorem name (binders" or the name at the end of the line;
+    # prose in comments ("Theorem statements are ...") must not count as an obligation
+    return re.findall(r"^Theorem\s+([A-Za-z0-9_']+)\s*(?::|\(|$)", src, re.M)
 
 
 def ensure_coq(prop_ids):
